@@ -107,7 +107,8 @@ pub fn run(tier: Tier) -> i32 {
     let prefix: String = {
         let mut s = String::new();
         for i in 0..SHIFT - 1 {
-            s.push_str(&format!("; leading comment line {}\n", if i % 2 == 0 { "a" } else { "b" }));
+            // (some end in a backslash: a comment is a comment, and a line is a line)
+            s.push_str(&format!("; leading comment line {}{}\n", if i % 2 == 0 { "a" } else { "b" }, if i % 97 == 13 { " see C:\\avr\\" } else { "" }));
         }
         // the one earlier definition the duplicate-label fault collides with
         s.push_str("dup_lbl_q:\n");
@@ -198,7 +199,18 @@ pub fn run(tier: Tier) -> i32 {
         }
     };
     let n_msg = AtomicU64::new(0);
-    (0..4096usize).into_par_iter().for_each(|code| {
+    (0..4096usize * 4).into_par_iter().for_each(|code_style| {
+        let (code, style) = (code_style % 4096, code_style / 4096);
+        // how the lines around the slots are written: 0 plain; 1 a label in front of every
+        // conditional directive; 2 a glued comment with a colon behind it; 3 comment lines that
+        // end in a backslash before the slots
+        let cond = |text: &str, n: usize| -> String {
+            match style {
+                1 => format!("cl_{}: {}", n, text),
+                2 => format!("{};note:{}", text, n),
+                _ => text.to_string(),
+            }
+        };
         let kinds: Vec<usize> = (0..6).map(|i| (code >> (2 * i)) & 3).collect();
         // skeleton: (text, slot or none, assembled?)
         let mut lines: Vec<String> = vec![];
@@ -206,8 +218,8 @@ pub fn run(tier: Tier) -> i32 {
         let mut add = |s: String| {
             lines.push(s);
         };
-        for _ in 0..12 {
-            add("; header".into());
+        for i in 0..12 {
+            add(if style == 3 && i % 3 == 2 { "; header \\".into() } else { "; header".into() });
         }
         add("ldi r16, 1".into());
         // slot 5 sits in the body of a macro that is called once, after everything else
@@ -219,19 +231,22 @@ pub fn run(tier: Tier) -> i32 {
             }
         };
         put_slot(&mut lines, 0, &mut slot_line);
-        lines.push(".if 1".into());
+        lines.push(cond(".if 1", 1));
         lines.push("ldi r16, 2".into());
         put_slot(&mut lines, 1, &mut slot_line);
-        lines.push(".else".into());
+        lines.push(cond(".else", 2));
         put_slot(&mut lines, 2, &mut slot_line);
         lines.push("ldi r16, 3".into());
-        lines.push(".endif".into());
-        lines.push(".if 0".into());
+        lines.push(cond(".endif", 3));
+        lines.push(cond(".if 0", 4));
         lines.push("ldi r16, 4".into());
-        lines.push(".else".into());
+        lines.push(cond(".else", 5));
         lines.push("ldi r16, 5".into());
         put_slot(&mut lines, 3, &mut slot_line);
-        lines.push(".endif".into());
+        lines.push(cond(".endif", 6));
+        if style == 3 {
+            lines.push("; /-----\\".into());
+        }
         lines.push("ldi r16, 6".into());
         put_slot(&mut lines, 4, &mut slot_line);
         lines.push(".macro msg_mac".into());
@@ -294,7 +309,7 @@ pub fn run(tier: Tier) -> i32 {
             (Outcome::Panic { site, msg }, _) => bad = Some(("panic", format!("panic at {}: {}", site, msg))),
         }
         if let Some((kind, what)) = bad {
-            rep.violation(&format!("C15/{}", kind), || format!("slots {:?}: {}", kinds, what), || json!({"kind": "build_str", "source": text, "observed": o.to_json()}));
+            rep.violation(&format!("C15/{}/style={}", kind, ["plain", "labelled-directives", "glued-comments", "backslash-comment-lines"][style]), || format!("slots {:?}: {}", kinds, what), || json!({"kind": "build_str", "source": text, "observed": o.to_json()}));
         }
     });
     let fu = fault_use.lock().unwrap().clone();
@@ -310,7 +325,7 @@ pub fn run(tier: Tier) -> i32 {
     let coverage = cov(json!({
         "evaluations": evals.load(Ordering::Relaxed),
         "distinct_nontrivial": work.len(),
-        "rule": "every corpus program x every live line position x 17 kinds of single-line fault (inserted as one line, the rest valid): the build must fail and the error text must contain the decimal token of that line; plus all 4^6 placements of nothing/.message/.warning/.error over six slots (top level, taken arm, untaken arm, taken .else arm, after .endif, body of a called macro). distinct_nontrivial = distinct (program, position, fault) triples",
+        "rule": "every corpus program x every live line position x 17 kinds of single-line fault (inserted as one line, the rest valid): the build must fail and the error text must contain the decimal token of that line; plus all 4^6 placements of nothing/.message/.warning/.error over six slots (top level, taken arm, untaken arm, taken .else arm, after .endif, body of a called macro), each in four spellings of the surrounding lines (plain; a label in front of every conditional directive; a glued comment with a colon behind every conditional directive; comment lines ending in a backslash). distinct_nontrivial = distinct (program, position, fault) triples",
         "exhaustive": true,
         "programs": usable.len(),
         "fault_positions": fu,
